@@ -1,9 +1,11 @@
 from checks.common import Build, Job
+from checks import cross
 from checks import c01
 
 PROP = "C02"
 BUILDS = c01.BUILDS
 CONFIGS = c01.CONFIGS
+BUILDS = BUILDS + cross.gp_builds(("bp","memb"))   # cross-property core jobs (checks/cross.py)
 RULE = ("every schedule within the preemption / TSO-delay / futex-fault budget of reader/updater scenarios on the real flavor "
         "code (spin bounds 1 and 2 so that the spin->sleep transition lands everywhere); fault menu at every FUTEX_WAIT: "
         "spurious 0, EINTR, ENOSYS, plus the whole-run configuration 'futex always ENOSYS' (compat fallback); oracle: every "
@@ -53,6 +55,8 @@ def jobs(tier):
             J.append(Job(b, "three_callers", "2,0,1,0", p1, env, workers=16))
             J.append(Job(b, "two_readers", "2,0,1,0", p1, env, workers=16))
             J.append(Job(b, "two_readers", "2,0,0,0", dict(p1, futex_enosys=1), env, workers=16))
+    # the components this property's guarantee is built on, on the real code (checks/cross.py)
+    J += cross.sig_core(tier)
     return J
 
 
